@@ -1,6 +1,6 @@
 """C03 (partial): T-LANE, T-PAIR, T-NODROP, T-DISP, R-WRAP(a), DL-WIDTH, ELF layout, STRTAB-PAIR, REC-SUM."""
 from nk import report
-from rules import elf, lane, disp
+from rules import elf, lane, disp, fmtwidth
 from . import common
 
 EXPLANATION = (
@@ -13,13 +13,13 @@ EXPLANATION = (
     'image loop of the 8 writers each path reads the byte at n or passes a DL_EMPTY edge. T-DISP: every selectable '
     'output type / detectable input type / accepted command is dispatched. R-WRAP(a): page-membership tests are '
     'computed in 64 bits. DL-WIDTH: the debug-line channel (which doubles as the "byte was written" marker) is at '
-    'least 32 bits wide end to end. STRTAB-PAIR: the ELF writer\'s string-table offsets (st_name, sh_name) are computed from the same strings it writes, so an exported symbol carries its own name. SHNUM-PAIR: every CPU-specific increment of e_shnum is matched by a CPU-specific section header that is written. Not decided: ELF/Mach-O/UF2/Amiga layout conformance beyond lanes, bin gap filling.')
+    'least 32 bits wide end to end. STRTAB-PAIR: the ELF writer\'s string-table offsets (st_name, sh_name) are computed from the same strings it writes, so an exported symbol carries its own name. PATCH-WIDTH: header fields that are reserved and filled in later are filled with the reserved width in each ELF class. SHNUM-PAIR: every CPU-specific increment of e_shnum is matched by a CPU-specific section header that is written. FMT-WIDTH: every `%0NX` field of the hex and srec writers is proven (interval analysis, helper parameters from their call sites) to hold a value of at most N hex digits, so an address or start address wider than the record type is never printed into it. Not decided: ELF/Mach-O/UF2/Amiga layout conformance beyond lanes, bin gap filling.')
 
 
 def run(tier, t0):
     prog = common.program()
     results = [lane.lanes(prog, 40), lane.pair(prog), lane.nodrop(prog, 8), disp.disp(prog), lane.wrap_pages(prog, 2),
-               lane.dl_width(prog), elf.layout(prog), elf.strtab_pair(prog), elf.shnum_pair(prog), lane.rec_sum(prog)]
+               lane.dl_width(prog), elf.layout(prog), elf.strtab_pair(prog), elf.shnum_pair(prog), elf.patch_width(prog), lane.rec_sum(prog), fmtwidth.fmt_width(prog)]
     return report.finish('C03', tier, results, EXPLANATION,
                          ['format definitions (Intel hex two\'s-complement checksum, S-record one\'s-complement checksum '
                           'and length) are transcribed in rules/lane.py',
